@@ -84,6 +84,17 @@ structure Cfg where
   /-- process_inet has `except _Ipv6UnsupportedError: continue` around both `decode_address` calls
       (false: the exception leaves the generator) -/
   v6SkipLine : Bool := true
+  /-- decode_address, the four `inet_ntop` calls (translator fact `ntopCalls`): is the decoded IPv4 string reversed
+      (`base64.b16decode(ip)[::-1]`) in the `if LITTLE_ENDIAN:` branch / in its `else:` branch … -/
+  v4RevLE : Bool := true
+  v4RevBE : Bool := false
+  /-- … and are the four 32-bit words of an IPv6 address byte-swapped (`pack('>4I', *unpack('<4I', ip))`) in the
+      `if LITTLE_ENDIAN:` branch / in its `else:` branch (`pack('<4I', *unpack('<4I', ip))` = identity) -/
+  v6SwapLE : Bool := true
+  v6SwapBE : Bool := false
+  /-- the four calls sit under exactly the four expected (family, endianness) tests and each argument is one of the
+      expressions the two flags above can express -/
+  ntopKnown : Bool := true
   -- `_, laddr, raddr, status, _, _, _, _, _, inode = line.split()[:10]`
   inetN : Nat
   iLaddr : Nat
@@ -94,6 +105,11 @@ structure Cfg where
   unixN : Nat
   uType : Nat
   uInode : Nat
+
+/-- is the decoded IPv4 string reversed on this host (the branch of `if LITTLE_ENDIAN:` that runs)? -/
+def Cfg.v4Rev (c : Cfg) : Bool := if c.littleEndian then c.v4RevLE else c.v4RevBE
+/-- are the IPv6 words byte-swapped on this host? -/
+def Cfg.v6Swap (c : Cfg) : Bool := if c.littleEndian then c.v6SwapLE else c.v6SwapBE
 
 /-! ### `decode_address` -/
 
@@ -132,14 +148,14 @@ def decodeAddress (cfg : Cfg) (addr : Bytes) (family : Nat) : Except Exc Addr :=
       | none => .error .valueError
       | some raw =>
         if family = cfg.afInet then
-          let packed := if cfg.littleEndian then raw.reverse else raw
+          let packed := if cfg.v4Rev then raw.reverse else raw
           if packed.length = 4 then .ok (.ip packed (p + 1)) else .error .valueError
         else
           if raw.length = 16 then                  -- struct.unpack('<4I', ip)
             if cfg.ntop6Fails then                 -- inet_ntop raises ValueError:
               -- `if not supports_ipv6(): raise _Ipv6UnsupportedError` else re-raise
               if cfg.v6RaiseUnsupported && !cfg.supportsV6 then .error .ipv6Unsupported else .error .valueError
-            else .ok (.ip (if cfg.littleEndian then swap32 raw else raw) (p + 1))
+            else .ok (.ip (if cfg.v6Swap then swap32 raw else raw) (p + 1))
           else .error .structError
   | _ => .error .valueError
 
